@@ -18,7 +18,7 @@ TECHNIQUE = 'exhaustive enumeration of a small name language through the real co
 RULE = ('(a) all names up to the bound; (b) all 7,225 pairs in one file; (c) random unicode names; non-trivial = name containing a quote or a '
         'slash or empty; distinct = the name pair')
 ASSUMPTIONS = ['names contain no lone surrogates (not encodable as UTF-8)']
-REQUIRED = ['absent_name_lookups', 'reordered_segment_files', 'concat_ambiguity_files', 'file_chunk_lookups', 'memmap_files', 'reused_writer_objects', 'implied_group_lookups', 'codec_roundtrips', 'injectivity_pairs', 'end_to_end_lookups', 'unicode_names', 'lazy_lookups']
+REQUIRED = ['very_long_names', 'handed_out_lists_emptied', 'absent_name_lookups', 'reordered_segment_files', 'concat_ambiguity_files', 'file_chunk_lookups', 'memmap_files', 'reused_writer_objects', 'implied_group_lookups', 'codec_roundtrips', 'injectivity_pairs', 'end_to_end_lookups', 'unicode_names', 'lazy_lookups']
 EXHAUSTIVE = {'quick': False, 'thorough': False}
 ALPHA = ["'", '/', ' ', 'a']
 
@@ -173,6 +173,21 @@ def check_identity(ctx, data, pairs, ids, label, group_props=True):
                 grp = tf[g]
                 if grp.name != g or grp.path != M.qpath(g) or (group_props and grp.properties.get('gname') != g):
                     ctx.violation('%s/group-identity' % label, {'mode': mode, 'group': g, 'name': grp.name, 'path': grp.path, 'prop': grp.properties.get('gname')})
+            # the lists the file hands out are the caller's: emptying or re-ordering them must not change the file's view
+            try:
+                lst = tf.groups()
+                lst.reverse()
+                del lst[:]
+                for g_ in tf.groups():
+                    cl = g_.channels()
+                    cl.sort(key=lambda c_: c_.name, reverse=True)
+                    del cl[:]
+                ctx.count('handed_out_lists_emptied')
+                if sorted(g_.name for g_ in tf.groups()) != sorted({g for g, _ in pairs}) or sum(len(g_.channels()) for g_ in tf.groups()) != len(pairs):
+                    ctx.violation('%s/emptying-a-returned-list-changes-the-file' % label, {'mode': mode, 'groups': len(tf.groups()),
+                                                                                           'channels': sum(len(g_.channels()) for g_ in tf.groups())})
+            except Exception as ex:
+                ctx.violation('%s/list-mutation-raises/%s' % (label, util.exc_key(ex)), {'mode': mode})
             # names that do not exist must not resolve to something else (e.g. 'g/c' is not a group although g and c exist)
             gset = {g for g, _ in pairs}
             for (g, c) in list(ids)[:400]:
@@ -355,6 +370,13 @@ def unicode_names(case, ctx):
                 out.append(chr(cp))
         return ''.join(out)
     pairs = list({(name(), name()) for _ in range(40)})
+    if case['s'] % 4 == 0:
+        # names longer than 64 KiB (strings read block-wise), multi-byte characters at every alignment, two names that differ only far inside
+        unit = rng.choice(['é', '€', '😀', 'aé', 'ab€'])
+        long_a = (unit * (70000 // len(unit.encode('utf-8')) + 1))
+        long_b = long_a[:40000] + 'X' + long_a[40001:]
+        pairs += [(long_a, 'c'), ('g', long_b), (long_b, long_a[:66000])]
+        ctx.count('very_long_names', 3)
     ctx.evaluation(len(pairs))
     ctx.count('unicode_names', len(pairs))
     from nptdms.common import ObjectPath
